@@ -1,5 +1,7 @@
 """C13  Force-directed relocation: fixed modules stay, centres stay in the die (tools/force/fruchterman_reingold.py)."""
 import copy
+import os
+import sys
 import math
 from fractions import Fraction as Fr
 
@@ -264,6 +266,45 @@ def run_visualize(c):
     return dict(nt=it >= 100, cls=["max_iter>=100" if it >= 100 else "max_iter<100", "pictures=%s" % ("some" if imgs else "none")])
 
 
+_CHILD = """
+import json, sys
+from vfw import core
+core.ensure_repo_on_path()
+from props import c13
+c = json.loads(sys.stdin.read())
+die = c13.build(c)
+out, _ = c13.fruchterman_reingold_layout(die, float(c["kappa"]), False, None, int(c["max_iter"]))
+print(json.dumps(c13.centres(out.netlist)))
+"""
+
+
+def run_hashseed(c):
+    """Deterministic also means: the same in another interpreter.  The layout is computed in two child interpreters started with
+    different string-hash seeds (the order of sets and of dicts keyed by strings differs between them)."""
+    import json
+    import subprocess
+    res = []
+    for hs in ("1", "2"):
+        env = dict(os.environ, PYTHONHASHSEED=hs)
+        r = subprocess.run([sys.executable, "-c", _CHILD], input=json.dumps(c), capture_output=True, text=True, env=env, timeout=600)
+        if r.returncode != 0:
+            raise RuntimeError("child interpreter failed: %s" % r.stderr[-1500:])
+        res.append(json.loads(r.stdout.strip().splitlines()[-1]))
+    if res[0] != res[1]:
+        k = next(i for i, (a, b) in enumerate(zip(res[0], res[1])) if a != b)
+        raise Violation("fruchterman_reingold_layout(kappa=%r, max_iter=%d) gives other centres in another interpreter (PYTHONHASHSEED 1 vs 2): "
+                        "module #%d is at %s and at %s" % (c["kappa"], c["max_iter"], k, res[0][k], res[1][k]), "not-deterministic-across-interpreters")
+    big = any(len(set(e["m"])) >= 3 for e in c["nets"])
+    return dict(nt=big, cls=["net-with-3+-distinct-modules"] if big else ["small-nets"])
+
+
+@st.composite
+def hashseed_s(draw):
+    c = draw(design_s(False))
+    c["max_iter"] = draw(st.sampled_from([10, 25, 60]))
+    return c
+
+
 @st.composite
 def visualize_s(draw):
     c = draw(design_s(False))
@@ -278,6 +319,9 @@ def subchecks():
         Sub("visualize", run_visualize, strategy=visualize_s(), n_quick=48, n_thorough=1200, shrink_quick=False, shrink_thorough=False,
             required=("max_iter>=100",), case_timeout=300,
             desc="the same layout call with and without the visualize option, iteration counts 30-200 (the default is 100)"),
+        Sub("hashseed", run_hashseed, strategy=hashseed_s(), n_quick=32, n_thorough=600, shrink_quick=False, shrink_thorough=False,
+            required=("net-with-3+-distinct-modules",), case_timeout=600,
+            desc="the same layout in two child interpreters with different PYTHONHASHSEED values"),
         Sub("layout", run_layout, strategy=design_s(False), n_quick=6000, n_thorough=60000,
             required=("something-moved", "coincident-centres", "centre-on-border", "terminal", "zero-iterations", "squares-created-before",
                       "shared-point-objects")),
